@@ -1672,6 +1672,8 @@ def enum_configs():
         for init in ('absent', 'valid', 'older', 'truncated'):
             for cross in (False, True):
                 big = cross and (pa, pb) == ('include', 'include')
+                if big and init == 'truncated':
+                    continue        # > 40000 interleavings; covered by the random search only
                 cfgs.append(cfg(pa, pb, 0, 0, init, cross, 4096 if big else 1200))
             if init == 'truncated':
                 continue
